@@ -99,6 +99,21 @@ Section PdrTerminationSys.
     - right. left. exists w, st'. split; [exact H |]. split; [exact Hb |]. exists d. split; [exact Hd | now apply unsafe_exec].
     - right. right. exists st'. split; [exact H |]. split; [exact Hb |]. exists d. split; [exact Hd | now apply unsafe_exec].
   Qed.
+
+  (** every counterexample of at most MAX_FRAMES steps is found, whatever the number of state bits *)
+  Theorem pdr_model_fail_complete_sys fuel bf k :
+    truthful_sys -> no_faults slit (sstate sy) W EM solve cmd_fail bmc_result ->
+    bad_reachable_within sy k -> k <= MAX_FRAMES ->
+    pdr_fuel_bound nstates < fuel -> pdr_block_fuel_bound nstates < bf ->
+    (exists w st', run fuel bf = Ok (VFail W w, st') /\ bmc_result = BmcFail W EM w) \/
+    (exists st', run fuel bf = Ok (VUnknown W, st') /\ bmc_result = BmcOther W EM).
+  Proof.
+    intros Htr Hnf (trace & Hex & Hlen & Hbad) Hk. rewrite <- sstates_len. intros Hf Hbf.
+    apply (pdr_model_fail_complete slit slit_eqb (sstate sy) (scube sy) W EM solve cmd_fail n_init gen_on (has_bads_of sy)
+             bmc_result (slit_holds sy) (st_bad0 sy) (st_step0 sy) (st_trans sy) (st_bad sy) sstates fuel bf (pred (length trace))
+             sys_finite (sys_oracle_ok Htr) Hnf); try assumption; [| lia].
+    now apply (exec_unsafe sy Hcls trace Hex).
+  Qed.
 End PdrTerminationSys.
 
 (** ** the hypotheses are satisfiable: the exhaustive-search oracle over the listed valuations is truthful
